@@ -1,5 +1,6 @@
 import McpModel.Preflight.Props
 import McpModel.Preflight.Monitor
+import McpModel.Preflight.SeqProps
 /-!
 # C12 — clause soundness of the typed monitors (`Monitor.lean`)
 
@@ -777,6 +778,134 @@ theorem sound_e2e {c : B64} {nameOk : Bool} {p : Props} {a : Args} {impl : E2eOb
       exact Or.inr ⟨rfl, fun hP => hP (by simpa using hc)⟩
     · cases h
 
+/-! ## the unsupported-version answer (clause shared by C06 and C12) -/
+
+/-- A call whose `Mcp-Protocol-Version` header and `_meta` agree on a version this SDK does not implement and that is not
+older than 2026-07-28, and which violates no other documented precondition, is answered with JSON-RPC -32022 (listing
+supported versions: the harness prints another code otherwise) or -32602, and runs no handler. -/
+def P_unsupportedAnswered (c : B64) (r : Req) (o : HttpObs) : Prop :=
+  unsupportedNew r = true → violations c r = [] → (o.status, o.code) ∈ uvAllowed ∧ o.handled = 0
+
+theorem sound_uv {c : B64} {r : Req} {o : HttpObs} {cl : Clause} (h : uvMonitor c r o = some cl) :
+    cl = .unsupportedVersion o.status o.code o.handled ∧ ¬ P_unsupportedAnswered c r o := by
+  unfold uvMonitor at h
+  split at h
+  · rename_i hc
+    cases h
+    refine ⟨rfl, fun hP => ?_⟩
+    simp only [Bool.and_eq_true, List.isEmpty_iff, Bool.not_eq_true', Bool.and_eq_false_iff, beq_eq_false_iff_ne, ne_eq] at hc
+    obtain ⟨⟨hu, hv⟩, hn⟩ := hc
+    obtain ⟨h1, h2⟩ := hP hu hv
+    rcases hn with hn | hn
+    · rw [List.contains_iff_mem.mpr h1] at hn
+      cases hn
+    · exact hn h2
+  · cases h
+
+/-! ## `seq` records: one session over time
+
+The predicates are stated on the record and on what an observer of the session knows (`SeqMon`: the server's tool table,
+the names the server has given the client in tools/list results since that table last changed and since the last
+list_changed) — not on the model's cache. -/
+
+/-- *client_server_agree over time*: on a 2026-07-28 session, the call of a tool the client has listed under its current
+definition (valid annotations) with valid arguments goes through, the handler sees the arguments sent, and the request
+carries exactly the `Mcp-Param-*` headers that definition demands. -/
+def P_seqCall (c : B64) (m : SeqMon) (n : Bytes) (a : Args) (hdrs : ParamHdrs) (out : CallOut) : Prop :=
+  m.newProto = true → n ∈ m.listed → ∀ ps, toolDef m.server n = some ps → ToolValid ps → ArgsValidDoc ps a →
+    out = .okSame ∧ P_generated c ps a hdrs
+
+/-- … and `lookupTool` answers with exactly that definition, however often it is asked. -/
+def P_seqLook (m : SeqMon) (n : Bytes) (defs : List (Option Props)) : Prop :=
+  m.newProto = true → n ∈ m.listed → ∀ ps, toolDef m.server n = some ps → defs = [some ps]
+
+/-- A legacy session: no mirror applies, a call of a tool the server has goes through. -/
+def P_seqLegacy (m : SeqMon) (n : Bytes) (out : CallOut) : Prop :=
+  m.newProto = false → (toolDef m.server n).isSome = true → out = .okSame
+
+/-- *Refused ⇒ untouched*: a call that fails reached no tool handler. -/
+def P_seqQuiet (out : CallOut) : Prop := ∀ code, out ≠ .notOk code false
+
+theorem sound_seq_look {c : B64} {m : SeqMon} {n : Bytes} {defs : List (Option Props)} {cl : Clause}
+    (h : (seqMonStep c m (.look n) (.looked defs)).2 = some cl) :
+    (cl = .seqStaleLook ∨ cl = .seqLostLook) ∧ ¬ P_seqLook m n defs := by
+  simp only [seqMonStep] at h
+  split at h
+  · rename_i hc
+    simp only [Bool.and_eq_true, List.contains_iff_mem] at hc
+    split at h
+    · rename_i ps hps
+      split at h
+      · cases h
+      · rename_i hne
+        refine ⟨?_, fun hP => hne (by rw [hP hc.1 hc.2 ps hps]; exact beq_self_eq_true _)⟩
+        split at h <;> cases h
+        · exact Or.inl rfl
+        · exact Or.inr rfl
+    · cases h
+  · cases h
+
+theorem sound_seq_call {c : B64} {m : SeqMon} {n : Bytes} {a : Args} {hdrs : ParamHdrs} {out : CallOut} {cl : Clause}
+    (h : (seqMonStep c m (.call n a) (.called hdrs out)).2 = some cl) :
+    ((cl = .seqRefusedExact ∨ cl = .seqStaleCall ∨ cl = .seqLostCall ∨ cl = .seqAgree ∨ (∃ b, cl = .genMirror b) ∨ cl = .genUnbound) ∧
+        ¬ P_seqCall c m n a hdrs out) ∨
+    (cl = .seqLegacy ∧ ¬ P_seqLegacy m n out) ∨
+    (cl = .e2eReached ∧ ¬ P_seqQuiet out) := by
+  simp only [seqMonStep] at h
+  have hreach : ∀ {o : CallOut}, (match o with | .notOk _ false => some Clause.e2eReached | _ => none) = some cl →
+      cl = .e2eReached ∧ ¬ P_seqQuiet o := by
+    intro o ho
+    split at ho
+    · cases ho
+      exact ⟨rfl, fun hP => hP _ rfl⟩
+    · cases ho
+  split at h
+  · rename_i ps hps
+    split at h
+    · rename_i hp
+      split at h
+      · rename_i hc
+        simp only [Bool.and_eq_true, List.contains_iff_mem] at hc
+        obtain ⟨⟨hl, htv⟩, hav⟩ := hc
+        have htv' := (toolValidB_iff ps).mp htv
+        have hav' := (argsValidB_iff ps a).mp hav
+        left
+        split at h
+        · rename_i hne
+          refine ⟨?_, fun hP => ?_⟩
+          · split at h
+            · cases h; exact Or.inl rfl
+            · split at h
+              · cases h; exact Or.inr (Or.inl rfl)
+              · split at h <;> cases h
+                · exact Or.inr (Or.inr (Or.inl rfl))
+                · exact Or.inr (Or.inr (Or.inr (Or.inl rfl)))
+          · have := (hP hp hl ps hps htv' hav').1
+            rw [this] at hne
+            simp at hne
+        · split at h
+          · rename_i cl' hg
+            refine ⟨?_, fun hP => sound_gen hg ((hP hp hl ps hps htv' hav').2)⟩
+            split at h
+            · cases h; exact Or.inr (Or.inl rfl)
+            · cases h
+              obtain ⟨_, _, hcase⟩ := genMonitor_fires hg
+              rcases hcase with ⟨b, _, hb, _⟩ | ⟨hb, _⟩
+              · exact Or.inr (Or.inr (Or.inr (Or.inr (Or.inl ⟨b, hb⟩))))
+              · exact Or.inr (Or.inr (Or.inr (Or.inr (Or.inr hb))))
+          · cases h
+      · exact Or.inr (Or.inr (hreach h))
+    · rename_i hp
+      split at h
+      · rename_i hne
+        cases h
+        refine Or.inr (Or.inl ⟨rfl, fun hP => ?_⟩)
+        have := hP (by simpa using hp) (by simp [hps])
+        rw [this] at hne
+        simp at hne
+      · cases h
+  · exact Or.inr (Or.inr (hreach h))
+
 /-! ## non-vacuity: every clause can fire -/
 
 section witnesses
@@ -818,6 +947,18 @@ example : paramsMonitor methodCallTool (.obj [([110, 97, 109, 101], .str [116])]
 example : e2eMonitor idCodec true wProps (.obj [(wRegion, .str [97])]) (.notOk true) = some .e2eAgree ∧
     e2eMonitor idCodec true wProps wMsg.args (.notOk true) = some .e2eF6 ∧
     e2eMonitor idCodec false wProps wMsg.args (.notOk false) = some .e2eReached := by decide
+/-- An observer who saw the server give the client tool `a` (annotated `region`) since the table last changed. -/
+def wMon : SeqMon := { newProto := true, server := [(wA, wProps)], listed := [wA], seen := [(wA, wProps), (wA, wPlain)] }
+example : (seqMonStep idCodec wMon (.look wA) (.looked [none])).2 = some .seqLostLook ∧
+    (seqMonStep idCodec wMon (.look wA) (.looked [some wPlain, some wProps])).2 = some .seqStaleLook ∧
+    (seqMonStep idCodec wMon (.look wA) (.looked [some wProps])).2 = none := by decide
+example : (seqMonStep idCodec wMon (.call wA wArgs) (.called [] (.notOk (some (-32020)) true))).2 = some .seqStaleCall ∧
+    (seqMonStep idCodec { wMon with seen := [] } (.call wA wArgs) (.called [] (.notOk (some (-32020)) true))).2 = some .seqLostCall ∧
+    (seqMonStep idCodec wMon (.call wA wArgs) (.called [([120], [97])] (.notOk (some (-32020)) true))).2 = some .seqAgree ∧
+    (seqMonStep idCodec wMon (.call wA wArgs) (.called wHdrs .okSame)).2 = none ∧
+    (seqMonStep idCodec wMon (.call wA wArgs) (.called wHdrs (.notOk (some (-32020)) true))).2 = some .seqRefusedExact ∧
+    (seqMonStep idCodec { wMon with newProto := false } (.call wA wArgs) (.called [] (.notOk none true))).2 = some .seqLegacy ∧
+    (seqMonStep idCodec { wMon with listed := [] } (.call wA wArgs) (.called [] (.notOk none false))).2 = some .e2eReached := by decide
 end witnesses
 
 end Preflight
